@@ -1677,6 +1677,7 @@ example : (withColumnSelection "c" ["a", "a", "c"]).map (ColRef.eval 9 [1, 2, 3]
   rw [withColumn_selection_is_model "c" ["a", "a", "c"] [1, 2, 3] 9 (by decide)]; decide
 
 -- NO-HYPOTHESES: PysparklingVerif.Extracted.C15.withColumn_replaces_iff
+-- NO-HYPOTHESES: PysparklingVerif.Extracted.C15.withColumn_selection_names
 end EquivC15
 
 /-! ### Extracted/EquivC13 -/
